@@ -1344,4 +1344,88 @@ end Ex
 
 end C11
 
+-- ====================================================================== 4. C03: bystanders
+section C03
+variable (info : Nat → Pipeline.Info)
+
+theorem merge_map {α β : Type} {a b m : List α} (h : Merge a b m) (f : α → β) : Merge (a.map f) (b.map f) (m.map f) := by
+  induction h with
+  | nil => exact .nil
+  | left x _ ih => exact .left _ ih
+  | right x _ ih => exact .right _ ih
+
+theorem dsbOnly_merge_silent {B V C : List (Item Keylog.Key)} (hm : Merge B V C) (hk : dsbOnly V = []) :
+    dsbOnly C = dsbOnly B := by
+  induction hm with
+  | nil => rfl
+  | left x _ ih => simp only [dsbOnly, List.flatMap_cons] at ih ⊢; rw [ih hk]
+  | right x _ ih =>
+    simp only [dsbOnly, List.flatMap_cons, List.append_eq_nil_iff] at ih hk ⊢
+    rw [hk.1, ih hk.2]; rfl
+
+/-- **C03, whole program (TLS).** `B`: a capture (one TLS conversation, or many); `V`: ANY other items — TCP segments on
+    other flows (valid TLS, garbage, records that make THEIR session's state machine raise), UDP / QUIC datagrams, non-IP
+    frames — that bring no key material (`hk`) and share no TCP flow with `B` (`hd`); `C`: any interleaving of the two.
+    Then the conversations of `B` are exported from `C` exactly as from `B` alone: the per-conversation frame lists of `C`
+    are those of `B`, each intact and in `B`'s order, interleaved with the blocks of `V`'s conversations. Whatever happens
+    inside a session of `V` stays inside it. Any options, key log, primitives. -/
+theorem export_bystander_unaffected (o : Opts) (fk : Option (List Keylog.Key)) {B V C : List (Item Keylog.Key)}
+    (hm : Merge B V C) (hd : ∀ a ∈ tcpView o B, ∀ b ∈ tcpView o V, sameFlow a b = false) (hk : dsbOnly V = []) :
+    Merge (tlsFrames H P info o fk B) ((tlsConvs H P info o V).map (convFrames H P info (keysOf fk C)))
+      (tlsFrames H P info o fk C) := by
+  have hkeys : keysOf fk C = keysOf fk B := by simp only [keysOf, dsbOnly_merge_silent hm hk]
+  have hs : Merge (tlsConvs H P info o B) (tlsConvs H P info o V) (tlsConvs H P info o C) :=
+    C04.tls_sessions_merge (Pipeline.tlsMachine H P info) o (hm.filterMap _) hd
+  unfold tlsFrames
+  rw [← hkeys]
+  exact merge_map hs _
+
+/-- … in particular every conversation of `B` is found in the merged run — the same object — with the same frames -/
+theorem bystander_frames_same (o : Opts) (fk : Option (List Keylog.Key)) {B V C : List (Item Keylog.Key)}
+    (hm : Merge B V C) (hd : ∀ a ∈ tcpView o B, ∀ b ∈ tcpView o V, sameFlow a b = false) (hk : dsbOnly V = [])
+    (s : TlsSess Pipeline.Conn) (hs : s ∈ tlsConvs H P info o B) :
+    s ∈ tlsConvs H P info o C ∧ convFrames H P info (keysOf fk C) s = convFrames H P info (keysOf fk B) s ∧
+      convFrames H P info (keysOf fk B) s ∈ tlsFrames H P info o fk C := by
+  have hkeys : keysOf fk C = keysOf fk B := by simp only [keysOf, dsbOnly_merge_silent hm hk]
+  have hss : Merge (tlsConvs H P info o B) (tlsConvs H P info o V) (tlsConvs H P info o C) :=
+    C04.tls_sessions_merge (Pipeline.tlsMachine H P info) o (hm.filterMap _) hd
+  have hmem := (hss.mem s).mpr (.inl hs)
+  refine ⟨hmem, by rw [hkeys], ?_⟩
+  unfold tlsFrames
+  rw [hkeys]
+  exact List.mem_map.mpr ⟨s, hmem, rfl⟩
+
+/-- … and in what `run()` hands to the writer: the TLS part of the merged run is the concatenation of these blocks -/
+theorem bystander_in_output (prior : Export.Prior) (args : Args) (o : Opts) (ho : optsOf args = some o)
+    (fk : Option (List Keylog.Key)) {B V C : List (Item Keylog.Key)}
+    (hm : Merge B V C) (hd : ∀ a ∈ tcpView o B, ∀ b ∈ tcpView o V, sameFlow a b = false) (hk : dsbOnly V = []) :
+    ∃ blocks quicPart, framesFrom mask H P prior args fk C info = .ok (blocks.flatten ++ quicPart) ∧
+      Merge (tlsFrames H P info o fk B) ((tlsConvs H P info o V).map (convFrames H P info (keysOf fk C))) blocks :=
+  ⟨_, _, framesFrom_explicit mask H P info prior args fk C o ho, export_bystander_unaffected H P info o fk hm hd hk⟩
+
+namespace Ex
+open TLX.Props.C04.Ex
+
+def oB : Opts := ⟨[443], false, false, false, true, []⟩
+def capB : List (Item Keylog.Key) := [.frame (tcp 1 (ep 1 5000) (ep 8 443)), .frame (tcp 4 (ep 8 443) (ep 1 5000))]
+def capV : List (Item Keylog.Key) :=
+  [.frame (tcp 2 (ep 2 6000) (ep 9 443)), .frame (udp 3 (ep 3 7000) (ep 9 443) [0xc0, 0, 0, 0, 1, 0]),
+   .frame ⟨.other, ⟨[], 0⟩, ⟨[], 0⟩, [], true, 5⟩]
+def capC : List (Item Keylog.Key) :=
+  [.frame (tcp 1 (ep 1 5000) (ep 8 443)), .frame (tcp 2 (ep 2 6000) (ep 9 443)),
+   .frame (udp 3 (ep 3 7000) (ep 9 443) [0xc0, 0, 0, 0, 1, 0]), .frame (tcp 4 (ep 8 443) (ep 1 5000)),
+   .frame ⟨.other, ⟨[], 0⟩, ⟨[], 0⟩, [], true, 5⟩]
+
+/-- non-vacuity of `export_bystander_unaffected`: a conversation, and a victim capture with another TCP flow, a QUIC-looking
+    datagram and a non-IP frame, interleaved -/
+theorem bystander_instance :
+    Merge capB capV capC ∧ (∀ a ∈ tcpView oB capB, ∀ b ∈ tcpView oB capV, sameFlow a b = false) ∧ dsbOnly capV = [] ∧
+    (tcpView oB capB).length = 2 ∧ (tcpView oB capV).length = 1 :=
+  ⟨.left _ (.right _ (.right _ (.left _ (.right _ .nil)))), by decide +kernel, by decide +kernel, by decide +kernel,
+   by decide +kernel⟩
+
+end Ex
+
+end C03
+
 end TLX.Props.ExportInputs
